@@ -129,7 +129,10 @@ NEON_NAMES = "vaeseq_u8, vaesdq_u8, vaesmcq_u8, vaesimcq_u8, vqtbl4q_u8"
 def neon_model(rel, text):
     """aarch64 interpreter runs: redirect the five intrinsics Miri lacks to the software model."""
     if rel == "lib.rs":
-        return text + "\n#[cfg(target_arch = \"aarch64\")]\nmod verif_neon_model;\n"
+        return text + "\n#[allow(dead_code)]\nmod verif_neon_model;\n"
+    if "_mm_aeskeygenassist_si128(" in text and "test_expand" not in rel:
+        # x86 interpreter runs with detection granted: the one AES-NI intrinsic Miri lacks
+        text = text.replace("_mm_aeskeygenassist_si128(", "crate::verif_neon_model::x86_keygenassist(")
     if "arch::aarch64::*" not in text:
         return text
     lines = text.split("\n")
@@ -227,6 +230,7 @@ def main():
     m += 'cipher = "=0.5.0-pre.8"\n'
     m += 'cpufeatures = "0.2"\n'
     m += 'serde_json = "1"\n'
+    m += 'libc = "0.2"\n'
     for (name, *_r) in vs:
         m += f'{name} = {{ path = "../shadows/{name}" }}\n'
     m += "\n[features]\ndefault = []\n"
@@ -258,6 +262,14 @@ def main():
                      f'[net]\noffline = true\n[build]\ntarget-dir = {json.dumps(os.path.join(build, "target-miri-a64"))}\n')
     if not os.path.exists(os.path.join(ws3, "Cargo.lock")):
         shutil.copy(lock_dst, os.path.join(ws3, "Cargo.lock"))
+    # x86_64 interpreter workspace with the AES-NI arm live: same modelled-intrinsic shadows (the transform
+    # also redirects _mm_aeskeygenassist_si128), detection granted by the simulator
+    ws4 = os.path.join(build, "ws-ni")
+    write_if_changed(os.path.join(ws4, "Cargo.toml"), m3)
+    write_if_changed(os.path.join(ws4, ".cargo", "config.toml"),
+                     f'[net]\noffline = true\n[build]\ntarget-dir = {json.dumps(os.path.join(build, "target-miri-ni"))}\n')
+    if not os.path.exists(os.path.join(ws4, "Cargo.lock")):
+        shutil.copy(lock_dst, os.path.join(ws4, "Cargo.lock"))
 
     # shuttle workspace: same shadows, cpufeatures seam with shuttle atomics
     ws2 = os.path.join(build, "ws-shuttle")
